@@ -20,6 +20,23 @@ Proof. apply fmt_run_empty. Qed.
 Lemma fmt_spaces_nil w s ind e : fmt_spaces w s ind e [] = [].
 Proof. unfold fmt_spaces, run_code. cbn [map concat]. apply fmt_run_nil. Qed.
 
+(* ---------- only white space moves, at the level of token runs and of whole chunk lists ---------- *)
+Lemma fmt_spaces_nonws w s ind e run : nonws (fmt_spaces w s ind e run) = nonws (run_code run).
+Proof. unfold fmt_spaces. apply fmt_run_nonws. Qed.
+
+Lemma run_code_flat_map run : run_code run = flat_map tcode run.
+Proof. unfold run_code. rewrite flat_map_concat_map. reflexivity. Qed.
+
+(* the formatter's output and the echo writer's output (the source text of the tokens walked) have the same
+   bytes outside white space, in the same order: luafmt changes only white space *)
+Theorem chunks_fmt_vs_echo_nonws w cs :
+  nonws (chunks_text (fmt_spaces w) cs) = nonws (chunks_text echo_spaces cs).
+Proof.
+  unfold chunks_text. induction cs as [|c cs IH]; [reflexivity|]. cbn [flat_map]. rewrite !nonws_app, IH. f_equal.
+  destruct c as [s ind e run | i text]; cbn [chunk_text]; [|reflexivity].
+  unfold echo_spaces. rewrite fmt_spaces_nonws, run_code_flat_map. reflexivity.
+Qed.
+
 (* ---------- edges of a text ---------- *)
 Definition ends_code (t : list Z) : Prop := exists t' c, t = t' ++ [c] /\ c <> SP /\ c <> NL.
 
